@@ -8,7 +8,8 @@
 (* reads (hl, frame, raw) and the model's predictions from the state dump.                  *)
 EXTENDS Handlers
 
-CONSTANTS Mode, MaxLen, Frames, Lists
+CONSTANTS Mode, MaxLen, Frames, Lists,
+          ExtraTokens      \* further token strings for this run (members of the archive: only with the full list)
 
 VARIABLES phase, hl, frame, raw,     \* the case
           res                        \* what the model says about it (see Result)
@@ -22,7 +23,7 @@ TokenStrings == {"/g", "/k", "/z.zip", "/m.mbox", "/s.sh", "/md", "/lk",
                  "%2e", "%2f", "%00", "%252e",
                  LkDot, LkSlash, LkBack, LkTwoDot,
                  "URL:x://", "/MAILDIR-MESSAGE/1", "/MBOX-MESSAGE/1"}
-Tokens == {Q(t) : t \in TokenStrings}
+Tokens == {Q(t) : t \in TokenStrings \cup ExtraTokens}
 
 RECURSIVE TokStrings(_)
 TokStrings(n) == IF n = 0 THEN {<<>>}
